@@ -30,6 +30,7 @@ type msScen struct {
 	LongSeg int        `json:"long_seg,omitempty"` // 1: the writer skips key frames so that its second segment is three times as long
 	Params  int        `json:"params"`             // frame index (relative to the writer's first) that switches the parameter set; 0 none
 	Big     int        `json:"big,omitempty"`      // extra payload bytes per video frame (responses that take several Writes)
+	Zero    int        `json:"zero,omitempty"`     // frame index (relative to the writer's first, 1-based) of a key frame that is followed by another key frame with new parameter sets and the same time stamp: a segment of zero duration
 	Reqs    [][]string `json:"reqs"`               // per requester thread, request symbols
 	Bound   int        `json:"bound"`
 	Shard   int        `json:"shard"`
@@ -44,6 +45,9 @@ func (s msScen) name() string {
 	big := ""
 	if s.Big != 0 {
 		big = fmt.Sprintf(" big=%d", s.Big)
+	}
+	if s.Zero != 0 {
+		big += fmt.Sprintf(" zero=%d", s.Zero)
 	}
 	return fmt.Sprintf("%s {%s} warm=%d writes=%d close=%v params=%d long=%d%s reqs=[%s] bound=%d shard=%d/%d",
 		s.Prop, s.Cfg, s.Warm, s.Writes, s.Close, s.Params, s.LongSeg, big, strings.Join(rs, " | "), s.Bound, s.Shard, s.Shards)
@@ -65,6 +69,7 @@ type msFeeder struct {
 	skipArmed bool
 	skipRA    int // number of upcoming key frames to write as ordinary frames (makes a long segment)
 	big       int // extra payload bytes per video frame
+	zeroNext  bool
 }
 
 func newFeeder(mi *muxInst) *msFeeder {
@@ -131,7 +136,16 @@ func (f *msFeeder) feed(switchParams bool) error {
 		if switchParams {
 			u.RA, u.Params = true, 2
 		}
-		return f.mi.write(u)
+		if err := f.mi.write(u); err != nil {
+			return err
+		}
+		if f.zeroNext && u.RA {
+			// a second key frame at the same instant, with the other parameter set: the segment between the two has no duration
+			f.zeroNext = false
+			f.seq++
+			return f.mi.write(wunit{Track: f.vtrack, DTS: tms * 90, RA: true, Params: 2, Seq: f.seq})
+		}
+		return nil
 	}
 	return nil
 }
@@ -347,6 +361,7 @@ func msSetup(sc msScen, scratch string) func(s *vsched.Sched) any {
 		}
 		vsched.GoNamed("writer", func() {
 			for i := 0; i < sc.Writes; i++ {
+				st.feeder.zeroNext = sc.Zero != 0 && i == sc.Zero-1
 				if err := st.feeder.feed(sc.Params != 0 && i == sc.Params-1); err != nil {
 					st.writeErr = err
 					break
